@@ -21,6 +21,7 @@ func main() {
 		// neither called it nor stopped the context — returning from the middleware does not end the chain there
 		for _, forced := range []bool{false, true} {
 			custom, sc := cs.Custom, cs.Sc
+			probe.SetCase(cs)
 			if forced && !sc.Blocked {
 				// Only the blocked scenarios are driven under forced rules.  In iris v12.2.0 a `ctx.Next()` inside a forced
 				// handler is only *recorded* (Context.ProceedAndReportIfStopped), the framework advances afterwards: no
